@@ -524,6 +524,8 @@ def corrector_data(case):
         nv = rng.choice(NORMS) * (s0 if rng.random() < 0.7 else 1.0)
         if dtn == "float32" and nv != 0.0:
             nv = min(max(nv, 1e-15), 1e12)
+        if "norm_cap" in case and nv > case["norm_cap"] * s0:
+            nv = case["norm_cap"] * s0 * rng.uniform(0.3, 1.0)
         dirv = common.rand_dir(rng, d)
         row = [nv * v for v in dirv]
         if spec["kind"] == "huber" and c < 0.2:
@@ -605,7 +607,30 @@ def item_amp(spec, x: float) -> float:
     return 1.0
 
 
+def d2_noise(spec, x: float) -> float:
+    """x * (magnitude of the cancelling terms of rho''(x)) / rho'(x): times eps this bounds the spurious |alpha| that
+    rounding noise in autograd's rho'' can create where the exact rho'' is <= 0 but tiny (mask flips)"""
+    if x <= 0:
+        return 0.0
+    k, p = spec["kind"], spec["p"]
+    if k == "tolerant":
+        return 2.0 * x / abs(p[1])
+    if k == "poly":
+        g1 = p[0] + 2 * p[1] * x + 3 * p[2] * x * x
+        return (abs(2 * p[1]) + abs(6 * p[2] * x)) * x / g1 if g1 > 0 else 0.0
+    return 0.0
+
+
 SQRT_TINY = {"float64": 2.0 ** -536, "float32": 2.0 ** -74}     # sqrt of the smallest subnormal (rho' underflow)
+
+
+def cfail(ctx, case, what):
+    """ctx.fail without the harness-internal `_…` scratch entries of the case"""
+    ctx.fail({k: v for k, v in case.items() if not k.startswith("_")}, what)
+
+
+def mismatch(ctx, stream, case, detail):
+    ctx.disagree(stream, {k: v for k, v in case.items() if not k.startswith("_")}, detail)
 
 
 def build_corrector(which, kobj):
@@ -625,7 +650,7 @@ def corrector_oracles(ctx: Ctx, case, R, J, Rc, Jc):
     Rn, Jn = ld(R).reshape(N, d), ld(J).reshape(N, d, p)
     Rcn, Jcn = ld(Rc).reshape(N, d), ld(Jc).reshape(N, d, p)
     if not (np.isfinite(Rcn.astype(np.float64)).all() and np.isfinite(Jcn.astype(np.float64)).all()):
-        ctx.fail(case, f"corrector-finite: {case['which']}({spec['kind']}{spec['p']}) returns non-finite values (dtype {dtn}, d={d})")
+        cfail(ctx, case, f"corrector-finite: {case['which']}({spec['kind']}{spec['p']}) returns non-finite values (dtype {dtn}, d={d})")
         return None
     xs = [sum(mp.mpf(float(v)) ** 2 for v in Rn[i]) for i in range(N)]
     g1 = np.array([float(mp_d1(spec, x)) for x in xs], dtype=np.longdouble)
@@ -636,10 +661,12 @@ def corrector_oracles(ctx: Ctx, case, R, J, Rc, Jc):
     E = np.zeros((N, d, p), dtype=np.longdouble)
     if case["which"] == "triggs":
         for i in range(N):
+            x = float(xs[i])
+            al = d2_noise(spec, x)
             if mask[i]:
-                x = float(xs[i])
-                al = abs(1 - math.sqrt(max(0.0, 1 + 2 * x * float(g2[i]) / float(g1[i]))))
-                E[i] = math.sqrt(float(g1[i])) * max(al, 1.0) * np.abs(Rn[i])[:, None] * (np.abs(Rn[i]) @ np.abs(Jn[i]))[None, :] / x
+                al += max(abs(1 - math.sqrt(max(0.0, 1 + 2 * x * float(g2[i]) / float(g1[i])))), 1.0)
+            if al > 0 and x > 0:
+                E[i] = math.sqrt(float(g1[i])) * al * np.abs(Rn[i])[:, None] * (np.abs(Rn[i]) @ np.abs(Jn[i]))[None, :] / x
     floorR = SQRT_TINY[dtn] * np.abs(Rn)
     floorJ = SQRT_TINY[dtn] * np.abs(Jn)
     # gradient law
@@ -650,7 +677,7 @@ def corrector_oracles(ctx: Ctx, case, R, J, Rc, Jc):
     tol = TOLK * eps * Gs + 16 * TINY[dtn]
     if (np.abs(G - Gw) > tol).any():
         l = int(np.argmax(np.abs(G - Gw) - tol))
-        ctx.fail(case, f"grad-law: {case['which']}({spec['kind']}{spec['p']}) J'^T R' != sum rho' J^T R: component {l}: "
+        cfail(ctx, case, f"grad-law: {case['which']}({spec['kind']}{spec['p']}) J'^T R' != sum rho' J^T R: component {l}: "
                        f"{float(G[l])!r} vs {float(Gw[l])!r} (tol {float(tol[l]):.3e}; dtype {dtn}, N={N}, d={d}, masked items {int(mask.sum())})")
     # Hessian law
     JR = np.einsum("iap,ia->ip", Jn, Rn)
@@ -665,10 +692,11 @@ def corrector_oracles(ctx: Ctx, case, R, J, Rc, Jc):
     if (np.abs(H - Hw) > tolh).any():
         idx = np.unravel_index(int(np.argmax(np.abs(H - Hw) - tolh)), H.shape)
         name = "hess-law" if case["which"] == "triggs" else "fast-hess-law"
-        ctx.fail(case, f"{name}: {case['which']}({spec['kind']}{spec['p']}) J'^T J' != sum rho' J^T J + 2 rho'' J^T R R^T J on the mask: "
+        cfail(ctx, case, f"{name}: {case['which']}({spec['kind']}{spec['p']}) J'^T J' != sum rho' J^T J + 2 rho'' J^T R R^T J on the mask: "
                        f"entry {tuple(int(v) for v in idx)}: {float(H[idx])!r} vs {float(Hw[idx])!r} (tol {float(tolh[idx]):.3e}; dtype {dtn}, "
                        f"N={N}, d={d}, masked items {int(mask.sum())})")
     case["_amp"] = [float(v) for v in ampv]
+    case["_E"] = E.astype(np.float64)
     return mask
 
 
@@ -714,9 +742,9 @@ def check_corrector(ctx: Ctx, case, cobj=None, fobj=None):
                     continue
                 am = case["_amp"][i]
                 dr = (Rt[i] - Rf[i]).abs() - 16 * am * eps * Rf[i].abs() - 4 * TINY[dtn]
-                dj = (Jt[i] - Jf[i]).abs() - 16 * am * eps * Jf[i].abs() - 4 * TINY[dtn]
+                dj = (Jt[i] - Jf[i]).abs() - 16 * am * eps * (Jf[i].abs() + torch.from_numpy(case["_E"][i]).to(Jf.dtype)) - 4 * TINY[dtn]
                 if bool((dr > 0).any()) or bool((dj > 0).any()):
-                    ctx.fail(case, f"elsewhere: Triggs differs from FastTriggs on item {i} where rho''<=0 or R_i=0 "
+                    cfail(ctx, case, f"elsewhere: Triggs differs from FastTriggs on item {i} where rho''<=0 or R_i=0 "
                                    f"({spec['kind']}{spec['p']}, R_i={R.reshape(N, d)[i].tolist()})")
                     break
         except Exception as e:
@@ -750,19 +778,22 @@ def compare_corrector(ctx: Ctx, case, R, J, Rc, Jc, rep, stream=None):
         # multiplicative structure: R' is relative per component; J' gets the rank-one term on the mask
         tolR = TOLK * amp * eps * np.abs(Rm[i]) + 4 * TINY[dtn] + SQRT_TINY[dtn] * np.abs(Rn[i])
         tolJ = TOLK * amp * eps * np.abs(se * Jn[i]) + 4 * TINY[dtn] + SQRT_TINY[dtn] * np.abs(Jn[i])
-        if masked or (case["which"] == "triggs" and case.get("_mask", [False] * N)[i]):
-            g1, g2 = float(mp_d1(spec, x)), float(mp_d2(spec, x))
-            al = abs(1 - math.sqrt(max(0.0, 1 + 2 * x * g2 / g1))) if g1 > 0 else 0.0
-            rr = np.abs(Rn[i])[:, None] * (np.abs(Rn[i]) @ np.abs(Jn[i]))[None, :] / x if x > 0 else 0.0
-            tolJ = tolJ + TOLK * amp * eps * se * max(al, 1.0) * rr
+        if case["which"] == "triggs" and x > 0:
+            al = d2_noise(spec, x)
+            if masked or case.get("_mask", [False] * N)[i]:
+                g1, g2 = float(mp_d1(spec, x)), float(mp_d2(spec, x))
+                al += max(abs(1 - math.sqrt(max(0.0, 1 + 2 * x * g2 / g1))) if g1 > 0 else 0.0, 1.0)
+            rr = np.abs(Rn[i])[:, None] * (np.abs(Rn[i]) @ np.abs(Jn[i]))[None, :] / x
+            tolJ = tolJ + TOLK * amp * eps * se * al * rr
+            tolR = tolR + TOLK * eps * d2_noise(spec, x) * np.abs(Rm[i])
         if (np.abs(Ri[i] - Rm[i]) > tolR).any():
             a = int(np.argmax(np.abs(Ri[i] - Rm[i]) - tolR))
-            ctx.disagree(stream, case, f"{case['which']}({spec['kind']}{spec['p']}, {dtn}) R' item {i} comp {a}: implementation {Ri[i][a]!r} "
+            mismatch(ctx, stream, case, f"{case['which']}({spec['kind']}{spec['p']}, {dtn}) R' item {i} comp {a}: implementation {Ri[i][a]!r} "
                                        f"model {Rm[i][a]!r} tol {tolR[a]:.3e}; R_i={Rn[i].tolist()} masked={masked}")
             return False
         if (np.abs(Ji[i] - Jm[i]) > tolJ).any():
             idx = np.unravel_index(int(np.argmax(np.abs(Ji[i] - Jm[i]) - tolJ)), Ji[i].shape)
-            ctx.disagree(stream, case, f"{case['which']}({spec['kind']}{spec['p']}, {dtn}) J' item {i} entry {tuple(int(v) for v in idx)}: "
+            mismatch(ctx, stream, case, f"{case['which']}({spec['kind']}{spec['p']}, {dtn}) J' item {i} entry {tuple(int(v) for v in idx)}: "
                                        f"implementation {Ji[i][idx]!r} model {Jm[i][idx]!r} tol {tolJ[idx]:.3e}; R_i={Rn[i].tolist()} masked={masked}")
             return False
     return True
@@ -806,6 +837,7 @@ def run_corrector(ctx: Ctx, cases):
     for case in cases:
         case.pop("_mask", None)
         case.pop("_amp", None)
+        case.pop("_E", None)
 
 
 def gen_corrector_case(rng, which, kind, regime=None):
@@ -998,7 +1030,7 @@ def check_select(ctx: Ctx, case):
             got = -ld(b)[:, 0]
             tol = TOLK * ampc * eps * sca + 16 * TINY[dtn]
             if (np.abs(got - tot) > tol).any():
-                ctx.disagree("select", {**clean(case), "step": step}, f"LM right-hand side {got.astype(float).tolist()} != model J'^T R' "
+                mismatch(ctx, "select", {**clean(case), "step": step}, f"LM right-hand side {got.astype(float).tolist()} != model J'^T R' "
                                                                        f"{tot.astype(float).tolist()} (selection {sc})")
                 broken = True
         # loss value
@@ -1027,7 +1059,7 @@ def check_select(ctx: Ctx, case):
             gl = ld(g)
             tol = TOLK * ampc * eps * (2 * sc_ + np.abs(gl)) + 16 * TINY[dtn]
             if (np.abs(2 * rhs - gl) > tol).any():
-                ctx.fail({**clean(case), "step": step}, f"descent-direction: {case['opt']} with kernel={case['karg']} corrector={case['carg']}: "
+                cfail(ctx, {**clean(case), "step": step}, f"descent-direction: {case['opt']} with kernel={case['karg']} corrector={case['carg']}: "
                          f"2*J'^T R' = {(2 * rhs).astype(float).tolist()} but the gradient of the reported loss is {gl.astype(float).tolist()}")
                 return
             if abs(float(L.detach()) - float(loss)) > TOLK * eps * wsc * 2 + 16 * TINY[dtn]:
@@ -1112,6 +1144,16 @@ def gen_cases(ctx: Ctx, rng, scale=1.0):
                 if rng.random() < 0.6:
                     spec_cases.append({**c, "data_seed": rng.randrange(1 << 30)})
             corr_cases += spec_cases
+        if which == "triggs":
+            # the float32 band of Tolerant where exp(2u) overflows the normal range (a/|b| in 44..50, x << a)
+            for i in range(n(10, 40)):
+                c = gen_corrector_case(rng, which, "tolerant")
+                a = rng.choice([1.0, 5.0, 0.3, 50.0])
+                c["dtype"] = "float32"
+                c["batch"] = [rng.choice([3, 4, 6])]
+                c["norm_cap"] = 0.3
+                c["spec"] = {"kind": "tolerant", "p": [a, -a / rng.choice([44.0, 46.0, 48.0, 50.0]), 0.0]}
+                corr_cases.append(c)
         regs = ["convex", "convex", "convex", "linear", "affine", "concave", "mixed"] if which == "triggs" else ["convex", "affine", "concave"]
         for reg in regs:
             for i in range(n(12, 100)):
@@ -1165,6 +1207,7 @@ def search(ctx: Ctx):
             check_corrector(ctx, c)
             c.pop("_mask", None)
             c.pop("_amp", None)
+            c.pop("_E", None)
         for c in select_cases:
             n0 = len(ctx.disagreements)
             check_select(ctx, c)
